@@ -71,7 +71,8 @@ RULE = ("h5 pools: files with 1..9 slices, content value = 1000*file + slice; da
         "least 2 readable files and (a filter or context >= 1) for h5 cases, every dataset/cmr construction case, >= 2 members "
         "for concat cases, a multi-coil or zero-slice access for RNG cases, any oracle case; distinct = distinct protocol line / "
         "oracle case key")
-PENDING_FINDINGS: list[str] = []
+# genuine deviations on the unchanged tree that wait for the lead's fix:/known: decision
+PENDING_FINDINGS: list[str] = ["shepp-negative-index-slice-no"]
 
 for _n in ("H5SliceData", "FakeMRIBlobsDataset", "SheppLoganDataset", "ConcatDataset", "FakeMRIData", "direct",
            "FastMRIDataset", "CalgaryCampinasDataset", "CMRxReconDataset"):
@@ -139,10 +140,14 @@ def pool() -> Pool:
 def gen_filter(rng: pyrandom.Random, malformed: bool = False):
     """-> (python object for slice_data, protocol group, tag)"""
     if malformed:
-        if rng.random() < 0.5:
+        r = rng.random()
+        if r < 0.4:
             sl = slice(rng.choice([None, 0, 1]), rng.choice([None, 5]), 0)
             return sl, [1, int(sl.start is not None), sl.start or 0, int(sl.stop is not None), sl.stop or 0, 1, 0], "step0"
-        return (1, 2), [2], "nonslice"
+        if r < 0.7:      # truthy objects that are not slices (a non-empty range looks like one)
+            return rng.choice([(1, 2), range(1, 4), range(2, 9, 2), [0, 1], 3, "1:3"]), [2], "nonslice"
+        # falsy objects: `if not filter_slice` treats them as "no filter"
+        return rng.choice([range(0), range(5, 5), (), [], 0, False, ""]), [0], "falsy-nonslice"
     r = rng.random()
     if r < 0.25:
         return None, [0], "nofilter"
@@ -325,6 +330,11 @@ class World:
                     arr["imag"][k, l] = 1
             with h5py.File(self.cmr / f"vol{fid:03d}.mat", "w") as h:
                 h.create_dataset("kspace_full", data=arr)
+        self.cmr_list_files = []
+        for j in range(4):
+            members = rng.sample(sorted(self.cmr_shape) + [MISSING], rng.randint(0, 4))
+            (self.lists / f"c{j}.lst").write_text("".join(f"vol{f:03d}.mat\n" for f in members))
+            self.cmr_list_files.append((f"c{j}.lst", members))
 
     def close(self):
         shutil.rmtree(self.dir, ignore_errors=True)
@@ -485,28 +495,48 @@ def _cmr_decode(ks: np.ndarray, ctx) -> list[int]:
 def _gen_cmr_case(rng: pyrandom.Random, W: World):
     ctx = rng.choice([None, "slice", "time"])
     ids_all = sorted(W.cmr_shape)
-    if rng.random() < 0.3:
+    lists: list[list[int]] = []
+    root_given = 1
+    r = rng.random()
+    if r < 0.25:
+        mode = 0
         ids = [_name_id(p) for p in W.cmr.glob("*.mat")]
         kw = dict(data_root=W.cmr)
-    else:
+    elif r < 0.8:
+        mode = 1
         ids = rng.sample(ids_all + [MISSING], rng.randint(0, 5))
         if ids and rng.random() < 0.15:
             ids.insert(rng.randrange(len(ids) + 1), rng.choice(ids))        # a repeated name
         kw = dict(data_root=W.cmr, filenames_filter=[W.cmr / f"vol{f:03d}.mat" for f in ids])
+    else:
+        mode = 2
+        chosen = rng.sample(W.cmr_list_files, rng.randint(1, 2))
+        lists = [m for _, m in chosen]
+        ids = []
+        kw = dict(data_root=W.cmr, filenames_lists=[nm for nm, _ in chosen])
+        root_given = int(rng.random() < 0.85)
+        if root_given:
+            kw["filenames_lists_root"] = W.lists
     kw.update(kspace_context=ctx, compute_mask=rng.random() < 0.3)
     shp = {**W.cmr_shape, MISSING: (-1, -1)}
-    total = sum({None: a * b, "slice": a, "time": b}[ctx] for a, b in (shp[f] for f in set(ids)) if a > 0)
+    members = ids if mode != 2 else [f for l in lists for f in l]
+    total = sum({None: a * b, "slice": a, "time": b}[ctx] for a, b in (shp[f] for f in set(members)) if a > 0)
     idxs = list(range(-total - 1, total + 1))
-    groups = [[{None: 0, "slice": 1, "time": 2}[ctx], int("filenames_filter" in kw)], ids, [shp[f][0] for f in ids], [shp[f][1] for f in ids], idxs]
+    pool_ids = ids_all + [MISSING]
+    groups = [[{None: 0, "slice": 1, "time": 2}[ctx], mode, root_given], pool_ids, [shp[f][0] for f in pool_ids],
+              [shp[f][1] for f in pool_ids], ids, idxs] + lists
     return {"kw": kw, "ctx": ctx, "groups": groups, "idxs": idxs,
-            "bucket": f"cmr/ctx-{ctx}/{'filter' if 'filenames_filter' in kw else 'listing'}", "nontrivial": len(ids) >= 2}
+            "bucket": f"cmr/ctx-{ctx}/{['listing', 'filter', 'lists'][mode]}", "nontrivial": len(members) >= 2}
 
 
 def impl_cmr(case: dict):
     from direct.data.datasets import CMRxReconDataset
 
     def run():
-        ds = CMRxReconDataset(**case["kw"])
+        try:
+            ds = CMRxReconDataset(**case["kw"])
+        except ValueError as e:
+            return "err " + err_name(e)
         vi = list(ds.volume_indices.items())
         groups = [[_name_id(f) for f, _ in ds.data], [int(s) for _, s in ds.data], [_name_id(f) for f, _ in vi],
                   [r.start for _, r in vi], [r.stop for _, r in vi]]
@@ -530,6 +560,7 @@ class RngRecorder:
         self.log: list[tuple] = []
         self.private: list = []
         self.private_randn: list = []
+        self.streams: list = []
         self._orig = {k: getattr(np.random, k) for k in ("seed", "uniform", "randn", "RandomState")}
         rec = self
 
@@ -545,15 +576,43 @@ class RngRecorder:
             rec.log.append(("randn", shape))
             return rec._orig["randn"](*shape)
 
+        def _cnt(size):
+            return 1 if size is None else int(np.prod(size))
+
         class RS(self._orig["RandomState"]):
             def __init__(self_, seed=None):  # noqa: N805
                 self_._verif_seed = None if seed is None else int(seed)
+                self_._verif_log = []            # requests to this private stream: (code, count)
                 rec.private.append(self_._verif_seed)
+                rec.streams.append(self_)
                 super().__init__(seed)
 
             def randn(self_, *shape):  # noqa: N805
                 rec.private_randn.append((self_._verif_seed, int(np.prod(shape))))
+                self_._verif_log += [3, int(np.prod(shape))]
                 return super().randn(*shape)
+
+            def uniform(self_, low=0.0, high=1.0, size=None):  # noqa: N805
+                self_._verif_log += [5, _cnt(size)]
+                return super().uniform(low, high, size)
+
+            def normal(self_, loc=0.0, scale=1.0, size=None):  # noqa: N805
+                self_._verif_log += [6, _cnt(size)]
+                return super().normal(loc, scale, size)
+
+            def shuffle(self_, x):  # noqa: N805
+                self_._verif_log += [7, len(x)]
+                return super().shuffle(x)
+
+        def _other(name):
+            def f(self_, *a, **k):  # noqa: N805 - any other request is not part of the modelled sequence
+                self_._verif_log += [99]
+                return getattr(rec._orig["RandomState"], name)(self_, *a, **k)
+            return f
+
+        for _nm in ("rand", "randint", "random_sample", "random", "choice", "permutation", "standard_normal", "bytes",
+                    "random_integers", "exponential", "poisson", "binomial", "beta", "gamma"):
+            setattr(RS, _nm, _other(_nm))
 
         np.random.seed, np.random.uniform, np.random.randn, np.random.RandomState = seed, uniform, randn, RS
         self.s0 = np.random.get_state()
@@ -590,6 +649,13 @@ class RngRecorder:
                 out += [3, int(np.prod(op[1]))]
         return out
 
+    def blob_source(self) -> list[int]:
+        """the private stream `make_blobs` used: `[1, seed] + its requests`; `[0]` when it fell back to the global stream,
+        `[9]` for anything else"""
+        if len(self.streams) == 1 and self.streams[0]._verif_seed is not None:
+            return [1, self.streams[0]._verif_seed] + list(self.streams[0]._verif_log)
+        return [0] if not self.streams else [9]
+
     def source_of(self, kind: str) -> list[int]:
         for i, op in enumerate(self.log):
             if op[0] == kind:
@@ -597,17 +663,16 @@ class RngRecorder:
         return []
 
 
-def impl_fake(coils, seed, shape):
+def impl_fake(coils, seed, shape, given=0):
     from direct.data.fake import FakeMRIData
 
     def run():
-        fd = FakeMRIData(ndim=len(shape))
+        fd = FakeMRIData(ndim=len(shape), blobs_n_samples=given or None)
         np.random.seed(pyrandom.Random(seed * 7 + coils).randrange(2 ** 31))
         with RngRecorder() as r:
             fd(sample_size=1, num_coils=coils, spatial_shape=shape, name=["x"], seed=seed)
         final = r.encode() if r.consistent() else [9]
-        blobs = [1, r.private[0], 4] if len(r.private) == 1 and r.private[0] is not None else [0, 4]
-        return ok(final, blobs, r.source_of("uniform"))
+        return ok(final, r.blob_source(), r.source_of("uniform"))
     return run
 
 
@@ -617,8 +682,7 @@ def impl_fake_ds(ds, i):
         with RngRecorder() as r:
             ds[i]
         final = r.encode() if r.consistent() else [9]
-        blobs = [1, r.private[0], 4] if len(r.private) == 1 and r.private[0] is not None else [0, 4]
-        return ok(final, blobs, r.source_of("uniform"))
+        return ok(final, r.blob_source(), r.source_of("uniform"))
     return run
 
 
@@ -634,6 +698,124 @@ def impl_shepp(ds, i):
         else:
             noise = r.source_of("randn") if not r.private else [9]
         return ok(final, r.source_of("uniform"), noise)
+    return run
+
+
+# ---- phase 3: library functions the model re-implements, index structure of the synthetic datasets -------------
+def impl_bisect(xs, x):
+    import bisect
+
+    return lambda: ok([bisect.bisect_right(list(xs), x)])
+
+
+def impl_sliceidx(sl, n):
+    def run():
+        try:
+            a, b, st = sl.indices(n)
+        except ValueError as e:
+            return "err " + err_name(e)
+        r = range(a, b, st)
+        return ok([a, b, st], [len(r)], list(r))
+    return run
+
+
+def impl_dedup(xs):
+    return lambda: ok(list(dict.fromkeys(xs)))
+
+
+def _fake_name_id(name) -> int:
+    d = "".join(ch for ch in str(name) if ch.isdigit())
+    return int(d) if d else 0
+
+
+def _per_volume_seeds(seed, sample_size):
+    """the per-sample seeds, computed by the harness with the same library calls on a fresh private stream"""
+    rs = np.random.RandomState()
+    rs.seed(seed)
+    return [int(v) for v in rs.choice(a=range(int(1e5)), size=sample_size, replace=False)]
+
+
+def impl_fakeidx(sample_size, shape, given, seed, idxs, coils=1):
+    from direct.data.datasets import FakeMRIBlobsDataset
+    from direct.data.fake import FakeMRIData
+
+    def run():
+        try:
+            ds = FakeMRIBlobsDataset(sample_size=sample_size, num_coils=coils, spatial_shape=shape, seed=seed, filenames=given)
+        except IndexError as e:
+            return "err " + err_name(e)
+        vi = list(ds.volume_indices.items())
+        names = list(dict.fromkeys(d[0] for d in ds.data)) if len(shape) == 2 or shape[0] > 0 else []
+        # the names are observable through data only when every volume has a slice; fall back on the ranges otherwise
+        if not ds.data:
+            names = [str(f) for f, _ in vi]
+        seeds = _per_volume_seeds(seed, sample_size)
+        vols = {}
+
+        def volume(sd):
+            if sd not in vols:
+                vols[sd] = FakeMRIData(ndim=len(shape))(sample_size=1, num_coils=coils, spatial_shape=shape, name=["x"], seed=sd)[0]["kspace"]
+            return vols[sd]
+
+        groups = [[_fake_name_id(n) for n in (_names_of(ds, sample_size))], [_fake_name_id(d[0]) for d in ds.data],
+                  [int(d[1]) for d in ds.data], [int(d[2]) for d in ds.data], [_fake_name_id(f) for f, _ in vi],
+                  [r.start for _, r in vi], [r.stop for _, r in vi]]
+        for i in idxs:
+            try:
+                it = ds[i]
+            except IndexError:
+                groups.append([-1, 2])
+                continue
+            # which per-sample seed reproduces this item (at its reported slice)?
+            sd = next((c for c in seeds if _arr_same(np.asarray(it["kspace"]),
+                                                     _as_item(volume(c), int(it["slice_no"])))), -999)
+            groups.append([_fake_name_id(it["filename"]), int(it["slice_no"]), sd])
+        return ok(*groups)
+    return run
+
+
+def _names_of(ds, sample_size):
+    """the names in generation order: `volume_indices` keeps a repeated name once, `data` has none when a volume has no
+    slices — the list `parse_filenames_data` returned is recovered from whichever has all of them"""
+    from_data = []
+    for d in ds.data:
+        if not from_data or from_data[-1] != d[0] or d[1] == 0:
+            if d[1] == 0:
+                from_data.append(d[0])
+    return from_data if len(from_data) == sample_size else [str(f) for f in ds.volume_indices]
+
+
+def _as_item(volume, slice_no):
+    k = volume[slice_no]
+    return k[np.newaxis, ...] if k.ndim == 2 else k
+
+
+def impl_sheppidx(ds, idxs):
+    from direct.data.sens import simulate_sensitivity_maps
+
+    def run():
+        nz = len(ds)
+        cache = {}
+
+        def ref(s, k):
+            if (s, k) not in cache:
+                image = ds.sample_image(s)[None] * simulate_sensitivity_maps((ds.nx, ds.ny), ds.num_coils, seed=ds.seed[k])
+                if np.allclose(image, np.zeros(1)):
+                    image = image + np.random.RandomState(ds.seed[k]).randn(*image.shape) * __import__("sys").float_info.epsilon
+                cache[(s, k)] = ds.fft(image)
+            return cache[(s, k)]
+
+        groups = []
+        for i in idxs:
+            try:
+                it = ds[i]
+            except IndexError:
+                groups.append([-1, 2])
+                continue
+            pairs = [(s, s) for s in range(nz)] + [(s, k) for s in range(nz) for k in range(nz) if s != k]
+            hit = next(((s, k) for s, k in pairs if _arr_same(it["kspace"], ref(s, k))), (-999, -999))
+            groups.append([hit[0], hit[1], int(it["slice_no"])])
+        return ok(*groups)
     return run
 
 
@@ -689,19 +871,23 @@ def correspondence(ctx: Ctx):
         kind = "neg" if -tot <= idx < 0 else "pos" if 0 <= idx < tot else "out"
         yield {"line": pline("locate", sizes, [idx]), "impl": impl_locate(sizes, idx), "nontrivial": k >= 2,
                "bucket": f"concat/members{k}/{kind}" + ("/empty-member" if 0 in sizes else "")}
-    # ---- RNG streams of the synthetic datasets
+    # ---- RNG streams of the synthetic datasets: which stream serves which request, in which order
     for t in range(ctx.budget(24, 200)):
         coils = rng.choice([1, 1, 2, 3, 4, 8])
         seed = rng.choice([0, 0, 1, rng.randrange(10 ** 5)])
-        shape = rng.choice([(6, 6), (8, 5), (3, 6, 6), (2, 5, 4)])
-        yield {"line": pline("fake", [coils, seed]), "impl": impl_fake(coils, seed, shape), "nontrivial": coils > 1,
-               "bucket": f"rng/fake-call/coils{'1' if coils == 1 else '>1'}/seed{'0' if seed == 0 else '+'}/{len(shape)}d"}
+        shape = rng.choice([(6, 6), (8, 5), (3, 6, 6), (2, 5, 4), (1, 7, 3), (5, 5)])
+        given = rng.choice([0, 0, 0, 7, 30])
+        yield {"line": pline("fake", [coils, seed, given], shape), "impl": impl_fake(coils, seed, shape, given), "nontrivial": coils > 1,
+               "bucket": f"rng/fake-call/coils{'1' if coils == 1 else '>1'}/seed{'0' if seed == 0 else '+'}/{len(shape)}d"
+                         + ("/blobs_n_samples" if given else "")}
     for t in range(ctx.budget(6, 40)):
         coils = rng.choice([1, 2, 4])
         shape = rng.choice([(6, 6), (3, 6, 6)])
-        ds = FakeMRIBlobsDataset(sample_size=rng.randint(1, 3), num_coils=coils, spatial_shape=shape, seed=rng.randrange(1000))
+        given = rng.choice([0, 0, 11])
+        ds = FakeMRIBlobsDataset(sample_size=rng.randint(1, 3), num_coils=coils, spatial_shape=shape, seed=rng.randrange(1000),
+                                 **({"blobs_n_samples": given} if given else {}))
         for i in rng.sample(range(len(ds)), min(3, len(ds))):
-            yield {"line": pline("fake", [coils, int(ds.data[i][2])]), "impl": impl_fake_ds(ds, i), "nontrivial": coils > 1,
+            yield {"line": pline("fake", [coils, int(ds.data[i][2]), given], shape), "impl": impl_fake_ds(ds, i), "nontrivial": coils > 1,
                    "bucket": f"rng/fake-dataset/coils{'1' if coils == 1 else '>1'}/{len(shape)}d"}
     for t in range(ctx.budget(8, 60)):
         coils = rng.choice([1, 1, 2, 3])
@@ -709,10 +895,62 @@ def correspondence(ctx: Ctx):
         ds = SheppLoganDataset(shape=shp, num_coils=coils, intensity=rng.choice(["PROTON", "T1", "T2"]), seed=rng.randrange(1000))
         for i in range(len(ds)):
             zero = bool(np.allclose(ds.sample_image(i), 0))
-            k = coils * shp[0] * shp[1]
-            yield {"line": pline("shepp", [coils, int(ds.seed[i]), int(zero), k]), "impl": impl_shepp(ds, i),
+            yield {"line": pline("shepp", [coils, int(ds.seed[i]), int(zero)], [shp[0], shp[1]]), "impl": impl_shepp(ds, i),
                    "nontrivial": coils > 1 or zero,
                    "bucket": f"rng/shepp/coils{'1' if coils == 1 else '>1'}/{'zero-slice' if zero else 'nonzero-slice'}"}
+    # ---- the library functions the model re-implements, compared directly
+    for xs, x in [([], 0), ([3], 3), ([3], 2), ([0, 0, 0], 0), ([1, 2, 2, 2, 5], 2), ([5, 1, 1], 1), ([2, 2], -1), ([1, 4, 9], 10 ** 12)]:
+        yield {"line": pline("bisect", xs, [x]), "impl": impl_bisect(xs, x), "nontrivial": len(xs) >= 2, "bucket": "lib/bisect/fixed"}
+    for t in range(ctx.budget(120, 2000)):
+        n = rng.randint(0, 9)
+        xs = [rng.randint(0, 12) for _ in range(n)]
+        kind = "sorted" if rng.random() < 0.7 else "unsorted"
+        if kind == "sorted":
+            xs.sort()
+        x = rng.randint(-2, 14)
+        yield {"line": pline("bisect", xs, [x]), "impl": impl_bisect(xs, x), "nontrivial": n >= 2, "bucket": f"lib/bisect/{kind}"}
+    for t in range(ctx.budget(150, 2500)):
+        malformed = rng.random() < 0.05
+        sl, fgrp, tag = gen_filter(rng, malformed)
+        if not isinstance(sl, slice):
+            continue
+        n = rng.choice([0, 1, 2, 3, 5, 9, 12, 104])
+        yield {"line": pline("sliceidx", fgrp, [n]), "impl": impl_sliceidx(sl, n), "nontrivial": n >= 2, "bucket": f"lib/slice-indices/{tag}"}
+    for t in range(ctx.budget(30, 300)):
+        xs = [rng.randint(0, 6) for _ in range(rng.randint(0, 9))]
+        yield {"line": pline("dedup", xs), "impl": impl_dedup(xs), "nontrivial": len(set(xs)) < len(xs), "bucket": "lib/dict-fromkeys"}
+    # ---- index structure of the synthetic datasets
+    for t in range(ctx.budget(16, 160)):
+        sample_size = rng.choice([0, 1, 2, 2, 3, 4])
+        shape = rng.choice([(4, 4), (5, 4), (3, 4, 4), (2, 5, 4), (1, 4, 4)])
+        mode = rng.choice(["none", "str", "list-exact", "list-exact", "list-other", "list-empty"])
+        if mode == "none":
+            given, gids = None, [0]
+        elif mode == "str":
+            b = rng.randint(1, 9)
+            given, gids = f"n{b}", [b]
+        elif mode == "list-empty":
+            given, gids = [], []
+        else:
+            k = sample_size if mode == "list-exact" else rng.choice([x for x in (1, 2, 3, 5) if x != sample_size])
+            gids = rng.sample(range(1, 30), k)
+            given = [f"n{b}" for b in gids]
+        seed = rng.choice([0, 1, rng.randrange(10 ** 4)])
+        nz = shape[0] if len(shape) == 3 else 1
+        total = sample_size * nz
+        idxs = list(range(-total - 1, total + 1))
+        seeds = _per_volume_seeds(seed, sample_size)
+        coils = rng.choice([1, 2])
+        yield {"line": pline("fakeidx", [sample_size, len(shape), shape[0]], gids, seeds, idxs),
+               "impl": impl_fakeidx(sample_size, shape, given, seed, idxs, coils), "nontrivial": sample_size >= 2,
+               "bucket": f"index/fake/{mode}/{len(shape)}d"}
+    for t in range(ctx.budget(5, 40)):
+        nz = rng.choice([1, 2, 3, 4, 5])
+        ds = SheppLoganDataset(shape=(6, 6, nz), num_coils=rng.choice([2, 3]), intensity=rng.choice(["PROTON", "T1", "T2"]),
+                               seed=rng.randrange(1000))
+        idxs = list(range(-nz - 2, nz + 2))
+        yield {"line": pline("sheppidx", [nz], idxs), "impl": impl_sheppidx(ds, idxs), "nontrivial": nz >= 2,
+               "bucket": f"index/shepp/nz{nz}"}
 
 
 # --------------------------------------------------------------------------------------------------
@@ -738,6 +976,21 @@ def _arr_diff(ka, kb) -> str:
         return f"max abs diff {float(np.abs(ka - kb).max()):.3g}"
     except Exception:  # noqa: BLE001
         return "contents differ"
+
+
+def _keep_and_clobber(it: dict) -> dict:
+    """a private copy of what identifies the item; then the arrays that were handed out are overwritten in place, as a
+    transform working in place would do (an object that is cached and handed out again would now be corrupted)"""
+    kept = {"filename": str(it["filename"]), "slice_no": it["slice_no"], "kspace": np.array(it["kspace"], copy=True)}
+    for k, v in list(it.items()):
+        if isinstance(v, np.ndarray) and v.flags.writeable and v.size:
+            try:
+                v[...] = 7
+            except (ValueError, TypeError):
+                pass
+    it["slice_no"] = -12345
+    it["filename"] = "clobbered"
+    return kept
 
 
 def _same(a: dict, b: dict) -> bool:
@@ -800,8 +1053,10 @@ def _h5_case(P: Pool, fids, sl, c, rng, tag):
             _perturb(rng)
             it = ds[i]
             if i in first and not _same(first[i], it):
-                yield Violation("h5-reload-differs", "loading the same index twice returns different data", dict(rep, index=i))
-            first.setdefault(i, it)
+                yield Violation("h5-reload-differs", "loading the same index twice returns different data (the first copy was "
+                                "overwritten in place by its consumer in between)", dict(rep, index=i))
+            kept = _keep_and_clobber(it)
+            first.setdefault(i, kept)
 
 
 def _members_flat(members):
@@ -880,6 +1135,14 @@ def oracle(ctx: Ctx, deep: bool = False):
         vi = list(ds.volume_indices.values())
         if [(r.start, r.stop) for r in vi] != [(k * nz, (k + 1) * nz) for k in range(kw["sample_size"])] or len(ds) != nz * kw["sample_size"]:
             yield Violation("fake-ranges-not-a-partition", "FakeMRIBlobsDataset.volume_indices do not partition 0..len-1", rep)
+        else:       # item i of volume k's range is slice i - start of that volume
+            for f, r in ds.volume_indices.items():
+                bad = next((i for i in r if (str(ds.data[i][0]), ds.data[i][1]) != (str(f), i - r.start)
+                            or (lambda it: (str(it["filename"]), it["slice_no"]) != (str(f), i - r.start))(ds[i])), None)
+                if bad is not None:
+                    yield Violation("fake-item-not-designated", f"FakeMRIBlobsDataset item {bad} is not slice {bad - r.start} of the "
+                                                                f"volume whose range contains it", dict(rep, index=bad))
+                    break
         yield from _repro(ds, twin, rng, rep, "fake", lambda i: False)
     # the generator behind the dataset, called directly with the seeds the dataset may draw (0 included: a seed, not "no seed")
     from direct.data.fake import FakeMRIData
@@ -924,6 +1187,7 @@ def oracle(ctx: Ctx, deep: bool = False):
         yield from _repro(ds, twin, rng, rep, "shepp", lambda i: zero[i])
     yield from _oracle_interleaved(ctx, deep)
     yield from _oracle_phase2(ctx, deep)
+    yield from _oracle_phase3(ctx, deep)
 
 
 def _mapping(ds):
@@ -1101,7 +1365,10 @@ def _oracle_phase2(ctx: Ctx, deep: bool):
                     break
     for t in range(ctx.budget(12, 100)):
         case = _gen_cmr_case(rng, W)
-        ds = CMRxReconDataset(**case["kw"])
+        try:
+            ds = CMRxReconDataset(**case["kw"])
+        except ValueError:
+            continue
         ctx.count(("cmr", case["bucket"], t), True, bucket="oracle/" + case["bucket"])
         rep = {"op": "cmr", "kwargs": {k: str(v) for k, v in case["kw"].items()}}
         if not _partition_ok(ds):
@@ -1198,6 +1465,270 @@ def _oracle_phase2(ctx: Ctx, deep: bool):
         if got[0] != ref:
             yield Violation("hashseed-dependent-dataset", "index mappings / items differ between interpreters with different PYTHONHASHSEED",
                             {"op": "hashseed", "PYTHONHASHSEED": hs})
+
+
+def _zoo(W: World, small: bool = False):
+    """one object of every dataset class, as (name, factory)"""
+    import direct.config.defaults  # noqa: F401
+    from direct.data.datasets import (CalgaryCampinasDataset, CMRxReconDataset, ConcatDataset, FakeMRIBlobsDataset,
+                                      FastMRIDataset, SheppLoganDataset)
+    from direct.data.h5_data import H5SliceData
+
+    zoo = [
+        ("H5SliceData", lambda: H5SliceData(root=W.subs[3], kspace_context=1, slice_data=slice(None, None, 2),
+                                            pass_h5s={"x": ("recon", W.extra)})),
+        ("FakeMRIBlobsDataset-3d", lambda: FakeMRIBlobsDataset(sample_size=2, num_coils=2, spatial_shape=(3, 6, 5), seed=10)),
+        ("SheppLoganDataset-1coil", lambda: SheppLoganDataset(shape=(6, 6, 3), num_coils=1, intensity="PROTON", seed=0)),
+    ]
+    if not small:
+        zoo += [
+            ("FastMRIDataset", lambda: FastMRIDataset(data_root=W.subs[2])),
+            ("CalgaryCampinasDataset", lambda: CalgaryCampinasDataset(data_root=W.cc, crop_outer_slices=True)),
+            ("CMRxReconDataset-time", lambda: CMRxReconDataset(data_root=W.cmr, kspace_context="time")),
+            ("FakeMRIBlobsDataset-2d", lambda: FakeMRIBlobsDataset(sample_size=3, num_coils=1, spatial_shape=(6, 5), seed=0)),
+            ("SheppLoganDataset-3coils", lambda: SheppLoganDataset(shape=(6, 7, 4), num_coils=3, intensity="T2", seed=5)),
+            ("ConcatDataset", lambda: ConcatDataset([H5SliceData(root=W.subs[2]),
+                                                     FakeMRIBlobsDataset(sample_size=1, num_coils=2, spatial_shape=(2, 4, 4), seed=4),
+                                                     CMRxReconDataset(data_root=W.cmr)])),
+        ]
+    return zoo
+
+
+def _ident(it: dict):
+    return (pathlib.Path(str(it["filename"])).name, int(it["slice_no"]))
+
+
+def _items(ds, idxs=None):
+    out = []
+    for i in (range(len(ds)) if idxs is None else idxs):
+        it = ds[i]
+        out.append((_ident(it), np.array(it["kspace"], copy=True)))
+    return out
+
+
+def _first_diff(a, b):
+    """index of the first position where two item lists differ (identity or bytes), or None"""
+    if len(a) != len(b):
+        return min(len(a), len(b))
+    for n, ((ia, ka), (ib, kb)) in enumerate(zip(a, b)):
+        if ia != ib or not _arr_same(ka, kb):
+            return n
+    return None
+
+
+def _loader_items(ds, num_workers: int, batch_size: int, epochs: int):
+    """items as a torch DataLoader delivers them (forked workers when num_workers > 0), one list per epoch"""
+    from torch.utils.data import DataLoader
+
+    def collate(batch):
+        return batch
+
+    dl = DataLoader(ds, batch_size=batch_size, shuffle=False, num_workers=num_workers, collate_fn=collate,
+                    timeout=120 if num_workers else 0)
+    out = []
+    for _ in range(epochs):
+        ep = []
+        for batch in dl:
+            for it in batch:
+                ep.append((_ident(it), np.array(it["kspace"], copy=True)))
+        out.append(ep)
+    return out
+
+
+def _oracle_phase3(ctx: Ctx, deep: bool):
+    import copy
+    import pickle
+
+    import direct.config.defaults  # noqa: F401
+    from direct.data.datasets import (CalgaryCampinasDataset, CMRxReconDataset, ConcatDataset, FakeMRIBlobsDataset,
+                                      FastMRIDataset, SheppLoganDataset, build_dataset_from_input)
+    from direct.data.h5_data import H5SliceData
+
+    rng = ctx.rng
+    W = world()
+    big = deep or ctx.thorough
+    zoo = _zoo(W)
+    refs = {}
+    for name, mk in zoo:
+        _perturb(rng)
+        refs[name] = _items(mk())
+    # (a) copies of a dataset object: pickle round trip, deepcopy, a second identical construction
+    for name, mk in zoo:
+        ds = mk()
+        for how, clone in (("pickle", lambda d: pickle.loads(pickle.dumps(d))), ("deepcopy", copy.deepcopy)):
+            ctx.count(("copy", name, how), True, bucket=f"oracle/copies/{how}")
+            try:
+                c = clone(ds)
+                _perturb(rng)
+                half = _items(ds, range(0, len(ds), 2))        # the original keeps being used in between
+                got = _items(c)
+                bad = _first_diff(refs[name], got)
+                if bad is None:
+                    bad = _first_diff(refs[name][0::2], half)
+            except Exception as e:  # noqa: BLE001
+                yield Violation(f"copy-{how}-fails", f"{how} of a {name} fails with {err_name(e)}: {e}"[:300],
+                                {"op": "copy", "dataset": name, "how": how})
+                continue
+            if bad is not None:
+                yield Violation(f"copy-{how}-differs", f"a {how} copy of a {name} returns different items than the original "
+                                                       f"(first difference at position {bad})",
+                                {"op": "copy", "dataset": name, "how": how, "position": bad})
+    # (b) the same object several times in one concatenation, nested concatenations
+    for name, mk in zoo[:5]:
+        ds = mk()
+        ctx.count(("concat-twice", name), True, bucket="oracle/concat/same-object-twice")
+        n = len(ds)
+        cd = ConcatDataset([ds, ds, ConcatDataset([ds])])
+        order = list(range(-3 * n, 3 * n))
+        rng.shuffle(order)
+        for i in order[: (None if big else 24)]:
+            want = refs[name][i % n]
+            try:
+                it = cd[i]
+                good = len(cd) == 3 * n and _ident(it) == want[0] and _arr_same(it["kspace"], want[1])
+            except Exception:  # noqa: BLE001
+                good = False
+            if not good:
+                yield Violation("concat-same-object-twice", f"ConcatDataset([ds, ds, ConcatDataset([ds])])[{i}] is not ds[{i % n}] "
+                                                            f"for a {name}", {"op": "concat-twice", "dataset": name, "index": i})
+                break
+    # (c) numpy integers as indices
+    for name, mk in zoo:
+        ds = mk()
+        n = len(ds)
+        ctx.count(("np-index", name), True, bucket="oracle/index-types")
+        for i in sorted({0, n - 1, n // 2}):
+            for ix in (np.int64(i), np.int32(i - n), np.uint8(i) if i < 256 else np.int64(i)):
+                try:
+                    it = ds[ix]
+                    good = _ident(it)[0] == refs[name][i][0][0] and _arr_same(it["kspace"], refs[name][i][1]) and \
+                        (int(it["slice_no"]) == refs[name][i][0][1] or (int(ix) < 0 and name.startswith("SheppLogan")))
+                except Exception as e:  # noqa: BLE001
+                    good = False
+                if not good:
+                    yield Violation("numpy-integer-index", f"{name}[{type(ix).__name__}({int(ix)})] is not item {i}",
+                                    {"op": "np-index", "dataset": name, "index": int(ix), "type": type(ix).__name__})
+    # (d) no seed given: the per-sample seeds are drawn once, at construction — the object is still reproducible
+    for name, mk in (("FakeMRIBlobsDataset", lambda: FakeMRIBlobsDataset(sample_size=2, num_coils=2, spatial_shape=(2, 5, 4), seed=None)),
+                     ("SheppLoganDataset", lambda: SheppLoganDataset(shape=(6, 6, 3), num_coils=1, intensity="T1", seed=None))):
+        ds = mk()
+        ctx.count(("seed-none", name), True, bucket="oracle/seed-none")
+        a = _items(ds)
+        _perturb(rng)
+        b = _items(ds, reversed(range(len(ds))))[::-1]
+        c = _items(pickle.loads(pickle.dumps(ds)))
+        bad = _first_diff(a, b)
+        bad = _first_diff(a, c) if bad is None else bad
+        if bad is not None:
+            yield Violation("seed-none-reload-differs", f"{name}(seed=None): the same object (or its pickle copy) returns a "
+                                                        f"different item {bad} on a second load", {"op": "seed-none", "dataset": name})
+    # (e) DataLoader: forked workers, several epochs, different batch sizes — same items, same order
+    small = _zoo(W, small=not big)
+    for name, mk in small:
+        ds = mk()
+        for nw, bs in ([(2, 2)] if not big else [(1, 1), (2, 3), (3, 2)]):
+            ctx.count(("loader", name, nw, bs), True, bucket=f"oracle/dataloader/workers{nw}")
+            _perturb(rng)
+            try:
+                eps = _loader_items(ds, nw, bs, 2)
+            except Exception as e:  # noqa: BLE001
+                yield Violation("dataloader-fails", f"DataLoader(num_workers={nw}) over a {name} fails: {err_name(e)}: {e}"[:300],
+                                {"op": "loader", "dataset": name, "workers": nw, "batch_size": bs})
+                continue
+            for e_no, ep in enumerate(eps):
+                bad = _first_diff(refs[name], ep)
+                if bad is not None:
+                    yield Violation("dataloader-items-differ",
+                                    f"epoch {e_no} of DataLoader(num_workers={nw}, batch_size={bs}) over a {name}: item {bad} differs "
+                                    f"from the item loaded in the main process", {"op": "loader", "dataset": name, "workers": nw,
+                                                                                 "batch_size": bs, "epoch": e_no, "position": bad})
+                    break
+    # (f) pass_dictionaries: the entry of the item's own file
+    tags = {f"vol{f:03d}.h5": f for f in list(range(1, 14)) + sorted(W.cc_n)}
+    for cname, mk in (("H5SliceData", lambda: H5SliceData(root=W.subs[4], pass_dictionaries={"tag": tags}, kspace_context=1)),
+                      ("FastMRIDataset", lambda: FastMRIDataset(data_root=W.subs[3], pass_dictionaries={"tag": tags})),
+                      ("CalgaryCampinasDataset", lambda: CalgaryCampinasDataset(data_root=W.cc, pass_dictionaries={"tag": tags}))):
+        ds = mk()
+        ctx.count(("pass-dict", cname), True, bucket="oracle/pass_dictionaries")
+        for i in range(0, len(ds), max(1, len(ds) // 9)):
+            it = ds[i]
+            if it.get("tag") != _name_id(it["filename"]) or pathlib.Path(ds.data[i][0]).name != pathlib.Path(it["filename"]).name:
+                yield Violation("pass-dictionaries-wrong-file", f"{cname}: item {i} carries the pass_dictionaries entry of another file",
+                                {"op": "pass-dict", "class": cname, "index": i})
+                break
+    # (g) build_dataset_from_input: configuration + keyword arguments give the dataset the constructor gives
+    from omegaconf import OmegaConf
+
+    from direct.data.datasets_config import CMRxReconConfig, FastMRIConfig
+    from direct.utils.dataset import get_filenames_for_datasets_from_config
+
+    lst = [nm for nm, _ in W.list_files[:2]]
+    pat = r".*vol0(0[1-9]|1[0-2])\.h5"
+    variants = [
+        ("lists-in-config", lambda: build_dataset_from_input(None, OmegaConf.structured(FastMRIConfig(
+            name="FastMRI", filenames_lists=lst, filenames_lists_root=str(W.lists), regex_filter=pat)), data_root=W.main),
+         lambda: FastMRIDataset(data_root=W.main, filenames_lists=lst, filenames_lists_root=W.lists, regex_filter=pat)),
+        ("filter-kwarg-wins-over-config-lists", lambda: build_dataset_from_input(None, OmegaConf.structured(FastMRIConfig(
+            name="FastMRI", filenames_lists=lst, filenames_lists_root=str(W.lists))), data_root=W.main,
+            filenames_filter=[W.main / "vol004.h5", W.main / "vol002.h5"]),
+         lambda: FastMRIDataset(data_root=W.main, filenames_filter=[W.main / "vol004.h5", W.main / "vol002.h5"])),
+        ("train-flow-lists-to-filter", lambda: build_dataset_from_input(
+            transforms=None, dataset_config=OmegaConf.structured(FastMRIConfig(name="FastMRI", filenames_lists=lst)), data_root=W.main,
+            filenames_filter=get_filenames_for_datasets_from_config(
+                OmegaConf.structured(FastMRIConfig(name="FastMRI", filenames_lists=lst)), W.lists, W.main)),
+         lambda: FastMRIDataset(data_root=W.main, filenames_lists=lst, filenames_lists_root=W.lists)),
+        ("initial-images", lambda: build_dataset_from_input(None, OmegaConf.structured(FastMRIConfig(
+            name="FastMRI", input_image_key="recon")), data_root=W.subs[3], initial_images=W.extra),
+         lambda: FastMRIDataset(data_root=W.subs[3], pass_h5s={"initial_image": ("recon", W.extra)})),
+        ("cmr-lists-in-config", lambda: build_dataset_from_input(None, OmegaConf.structured(CMRxReconConfig(
+            name="CMRxRecon", filenames_lists=[W.cmr_list_files[0][0], W.cmr_list_files[1][0]], filenames_lists_root=str(W.lists),
+            kspace_context="slice")), data_root=W.cmr),
+         lambda: CMRxReconDataset(data_root=W.cmr, filenames_lists=[W.cmr_list_files[0][0], W.cmr_list_files[1][0]],
+                                  filenames_lists_root=W.lists, kspace_context="slice")),
+    ]
+    for vname, via_cfg, direct_ds in variants:
+        ctx.count(("build-variant", vname), True, bucket="oracle/build_dataset_from_input")
+        try:
+            a, b = via_cfg(), direct_ds()
+            same = _mapping(a) == _mapping(b)
+            if same and len(a):
+                ia, ib = a[len(a) // 2], b[len(b) // 2]
+                same = _ident(ia) == _ident(ib) and _arr_same(ia["kspace"], ib["kspace"]) and \
+                    ("initial_image" not in ib or _arr_same(ia.get("initial_image"), ib["initial_image"]))
+            err = None
+        except Exception as e:  # noqa: BLE001
+            same, err = False, f"{err_name(e)}: {e}"
+        if not same:
+            yield Violation(f"build-from-input-{vname}", f"build_dataset_from_input ({vname}) does not give the dataset the class "
+                                                         f"constructor gives ({err or 'different index mapping / item'})",
+                            {"op": "build-variant", "variant": vname, "error": err})
+    # (h) negative indices on the synthetic datasets: the item reports the slice it is
+    for coils, nz, inten, sd in ((2, 4, "T1", 3), (1, 3, "PROTON", 0), (3, 5, "T2", 7)):
+        ds = SheppLoganDataset(shape=(6, 6, nz), num_coils=coils, intensity=inten, seed=sd)
+        ctx.count(("shepp-negative", coils, nz), True, bucket="oracle/negative-index/shepp")
+        for k in range(1, nz + 1):
+            neg, pos = ds[-k], ds[nz - k]
+            if not _arr_same(neg["kspace"], pos["kspace"]):
+                yield Violation("shepp-negative-index-data", f"SheppLoganDataset[{-k}] is not the data of slice {nz - k}",
+                                {"op": "shepp-negative", "num_coils": coils, "nz": nz, "intensity": inten, "seed": sd, "index": -k})
+            elif neg["slice_no"] != pos["slice_no"]:
+                yield Violation("shepp-negative-index-slice-no",
+                                f"SheppLoganDataset[{-k}] (shape (6, 6, {nz})) returns the k-space of slice {nz - k} but reports "
+                                f"slice_no = {neg['slice_no']} (every other dataset class reports the slice the item is)",
+                                {"op": "shepp-negative", "num_coils": coils, "nz": nz, "intensity": inten, "seed": sd, "index": -k,
+                                 "observed_slice_no": int(neg["slice_no"]), "expected_slice_no": nz - k})
+                break
+    f = FakeMRIBlobsDataset(sample_size=2, num_coils=1, spatial_shape=(3, 4, 4), seed=1)
+    ctx.count(("fake-negative",), True, bucket="oracle/negative-index/fake")
+    for k in range(1, len(f) + 1):
+        neg, pos = f[-k], f[len(f) - k]
+        if _ident(neg) != _ident(pos) or not _arr_same(neg["kspace"], pos["kspace"]):
+            yield Violation("fake-negative-index", f"FakeMRIBlobsDataset[{-k}] is not item {len(f) - k}", {"op": "fake-negative", "index": -k})
+    # observations outside the quantifier (evidence notes, never a violation)
+    dup = FakeMRIBlobsDataset(sample_size=2, num_coils=1, spatial_shape=(3, 4, 4), seed=1, filenames=["a", "a"])
+    if len(dup.volume_indices) != 2:
+        ctx.notes.append("observation: FakeMRIBlobsDataset(filenames=['a', 'a'], sample_size=2) keeps one volume range "
+                         f"({list(dup.volume_indices.values())}) for {len(dup)} items — names given explicitly are used verbatim")
 
 
 _INTERLEAVE_FIXED = [
@@ -1299,9 +1830,11 @@ def _repro(ds, twin, rng, rep, name, zero_slice):
         if i in first and not _same(first[i], it):
             key = f"{name}-zero-slice-reload-differs" if zero_slice(i) else f"{name}-reload-differs"
             yield Violation(key, f"{type(ds).__name__}[{i}] loaded twice returns different k-space "
-                                 f"({_arr_diff(first[i]['kspace'], it['kspace'])})",
+                                 f"({_arr_diff(first[i]['kspace'], it['kspace'])}; the first copy was overwritten in place by "
+                                 f"its consumer in between)",
                             dict(rep, mode="reload") if zero_slice(i) else dict(rep, index=i, mode="reload"))
-        first.setdefault(i, it)
+        kept = _keep_and_clobber(it)
+        first.setdefault(i, kept)
     for i in range(n):
         _perturb(rng)
         if not _same(first[i], twin[i]):
@@ -1311,12 +1844,93 @@ def _repro(ds, twin, rng, rep, name, zero_slice):
 
 
 # --------------------------------------------------------------------------------------------------
+# failing-input search: a disagreement between the implementation and the (proved) model *is* a concrete failing input
+_OP_WHAT = {
+    "parse": "H5SliceData(filenames_filter=files, slice_data=F): data / volume_indices",
+    "items": "H5SliceData(...)[idx] for the listed indices: (file, slice, context window)",
+    "dataset": "dataset class built from constructor arguments: data / volume_indices / items",
+    "cmr": "CMRxReconDataset built from constructor arguments: data / volume_indices / items",
+    "locate": "ConcatDataset(members of the given sizes)[idx] -> (member, local index)",
+    "bisect": "bisect.bisect_right(xs, x)",
+    "sliceidx": "slice.indices(n), len(range(...)), list(range(...))",
+    "dedup": "list(dict.fromkeys(xs))",
+    "fakeidx": "FakeMRIBlobsDataset: names / data / volume_indices / (file, slice, generating seed) of the listed indices",
+    "sheppidx": "SheppLoganDataset[idx]: (rendered slice, seed position, reported slice_no)",
+    "fake": "FakeMRIData()(…, seed): global stream afterwards | stream and requests of make_blobs | stream of the sensitivity offset",
+    "shepp": "SheppLoganDataset[i]: global stream afterwards | stream of the sensitivity offset | stream of the zero-slice noise",
+}
+
+
+def _groups(line: str):
+    body = line.split(" ", 1)[1] if " " in line else ""
+    return [[int(v) for v in g.split()] for g in body.split("|")]
+
+
+def _impl_from_line(line: str):
+    """the implementation thunk for the protocol lines that carry their whole input"""
+    op = line.split(" ", 1)[0]
+    g = _groups(line)
+    if op == "locate":
+        return impl_locate(g[0], g[1][0])
+    if op == "bisect":
+        return impl_bisect(g[0], g[1][0])
+    if op == "dedup":
+        return impl_dedup(g[0])
+    if op == "sliceidx":
+        f = g[0]
+        return impl_sliceidx(slice(f[2] if f[1] else None, f[4] if f[3] else None, f[6] if f[5] else None), g[1][0])
+    if op == "fake":
+        return impl_fake(g[0][0], g[0][1], tuple(g[1]), g[0][2])
+    return None
+
+
+def _impl_answer(line: str, seed: int, tier: str):
+    thunk = _impl_from_line(line)
+    if thunk is None:       # regenerate the stream of this seed and pick the case with this line
+        for c in correspondence(Ctx(PROP, tier, seed)):
+            if c["line"] == line:
+                thunk = c["impl"]
+                break
+    if thunk is None:
+        return None
+    try:
+        return thunk()
+    except Exception as e:  # noqa: BLE001
+        return "err " + err_name(e)
+
+
+def search(ctx: Ctx, dis: list, lean) -> list:
+    out = []
+    seen = set()
+    for d in dis:
+        op = d["line"].split(" ", 1)[0]
+        if op in seen:
+            continue
+        seen.add(op)
+        out.append(Violation(
+            f"model-mismatch:{op}",
+            f"{_OP_WHAT.get(op, op)} — the implementation answers differently from the model the C12 theorems are proved about: "
+            f"input `{d['line'][:160]}` implementation `{d['impl'][:120]}` required `{d['model'][:120]}`",
+            {"op": "corr", "line": d["line"], "observed": d["impl"], "expected": d["model"], "seed": ctx.seed, "tier": ctx.tier}))
+    return out
+
+
 def replay(rep: dict) -> bool:
     """Re-run a recorded failing case on the implementation; True when it still fails."""
     from direct.data.datasets import ConcatDataset, FakeMRIBlobsDataset, SheppLoganDataset
 
     rng = pyrandom.Random(0)
     op = rep.get("op")
+    if op == "corr":
+        got = _impl_answer(rep["line"], rep.get("seed", 0), rep.get("tier", "quick"))
+        return got is None or got.strip() != rep["expected"].strip()
+    if op in ("copy", "concat-twice", "np-index", "seed-none", "loader", "pass-dict", "build-variant", "shepp-negative",
+              "fake-negative"):
+        for v in _oracle_phase3(Ctx(PROP, "quick", 0), False):
+            if v.replay.get("op") == op and all(v.replay.get(k) == rep.get(k) for k in ("dataset", "how", "variant", "class")
+                                                if k in rep):
+                return True
+        return False
     if op == "h5":
         P = pool()
         by_n: dict[int, list[int]] = {}
